@@ -842,6 +842,12 @@ impl VisitMut for Norm {
                         *e = ne;
                         self.log("N7-copied-to-map", sp);
                     }
+                    "into" if mc.args.is_empty() && matches!(&*mc.receiver, Expr::MethodCall(i) if i.method == "as_ref" && i.args.is_empty()) => {
+                        // N15c: `X.as_ref().into()` (byte slice into Vec<u8>) => hq_bytes_to_vec(X.as_ref())
+                        let recv = &mc.receiver;
+                        *e = parse_quote!(hq_bytes_to_vec(#recv));
+                        self.log("N15c-slice-into-vec", sp);
+                    }
                     "to_string" | "to_owned" | "into" if mc.args.is_empty() => {
                         if let Expr::Lit(ExprLit { lit: Lit::Str(_), .. }) = &*mc.receiver {
                             *e = parse_quote!(hq_format());
@@ -914,6 +920,14 @@ impl VisitMut for Norm {
                                 self.log("N7d-option-map-unwrap_or", sp);
                             }
                         }
+                    }
+                    "then_some" if mc.args.len() == 1 => {
+                        // N7e: B.then_some(X) => if B { Some(X) } else { None }
+                        let b = &mc.receiver;
+                        let x = &mc.args[0];
+                        let ne: Expr = parse_quote!(if #b { Some(#x) } else { None });
+                        *e = ne;
+                        self.log("N7e-then_some", sp);
                     }
                     "retain" if mc.args.len() == 1 => {
                         // N8: V.retain(|p| B) => index loop with the same visiting order and the same survivors
@@ -1035,7 +1049,8 @@ impl VisitMut for Norm {
                         continue;
                     }
                     if let Pat::Or(po) = &arm.pat {
-                        if pat_binds_by_mut_ref(&arm.pat) {
+                        let scrut_mut = matches!(&*m.expr, Expr::Reference(r) if r.mutability.is_some());
+                        if pat_binds_by_mut_ref(&arm.pat) || (scrut_mut && has_binding(&arm.pat)) {
                             for case in po.cases.iter() {
                                 let mut a = arm.clone();
                                 a.pat = case.clone();
@@ -1079,6 +1094,15 @@ pub fn map_vec_type(t: &Type) -> Option<Type> {
     if let Type::Path(tp) = t {
         let last = tp.path.segments.last()?;
         let name = last.ident.to_string();
+        // N12b: the crate's `Result<T>` alias -> std Result with the crate's error type (named CrateError in the unit)
+        if name == "Result" && tp.path.segments.len() == 2 && tp.path.segments[0].ident == "crate" {
+            if let PathArguments::AngleBracketed(ab) = &last.arguments {
+                if ab.args.len() == 1 {
+                    let a = &ab.args[0];
+                    return Some(parse_quote!(std::result::Result<#a, CrateError>));
+                }
+            }
+        }
         if name == "SmallVec" {
             if let PathArguments::AngleBracketed(ab) = &last.arguments {
                 if let Some(GenericArgument::Type(Type::Array(arr))) = ab.args.first() {
